@@ -359,7 +359,12 @@ func scC10(r *Run) {
 }
 
 func init() {
-	register(&PropDef{ID: "C10", Quick: 6000, Thorough: 300000, Profiles: []ProfileDef{{Name: "stub", Share: 1, Sc: scC10}}})
+	register(&PropDef{ID: "C10", Quick: 6600, Thorough: 330000, Profiles: []ProfileDef{
+		{Name: "stub", Share: 10, Sc: scC10},
+		// the same scenario under the race detector: the client's goroutines share the time converter, the track
+		// table and the queues
+		{Name: "race-stub", Share: 1, Sc: scC10, Race: true},
+	}})
 }
 
 // scC20E2E: end-to-end look-ahead bound of the non-Low-Latency download pipeline: however fast the server
